@@ -67,7 +67,8 @@ class JointDistributionModel(DistributionModel):
     def entropy(self) -> torch.Tensor:
         entropies = []
         for distr in self._distributions.models():
-            entropies.append(distr.entropy())
+            # a multivariate component has a 0-dimensional entropy
+            entropies.append(distr.entropy().reshape(-1))
         return torch.cat(entropies, 0).sum()
 
     def handle_parameter_changed(self, variable: Parameter, index, event) -> None:
